@@ -1,3 +1,4 @@
 SPECIFICATION TSpec
 CONSTANTS
   HistBand = TRUE
+  StrictReassign = FALSE
